@@ -40,12 +40,14 @@ def evToJson : Ev → Json
   | .sw k => Json.arr #[Json.str "sw", ofNat k]
   | .contains k b => Json.arr #[Json.str "contains", ofNat k, Json.bool b]
   | .cget k v => Json.arr #[Json.str "cget", ofNat k, ofNat v]
+  | .ccreate k => Json.arr #[Json.str "ccreate", ofNat k]
   | .cpop k v => Json.arr #[Json.str "cpop", ofNat k, ofNat v]
   | .cpopFail k => Json.arr #[Json.str "cpopFail", ofNat k]
   | .crmv k b => Json.arr #[Json.str "crmv", ofNat k, Json.bool b]
   | .crmvFail k => Json.arr #[Json.str "crmvFail", ofNat k]
   | .enter k v => Json.arr #[Json.str "enter", ofNat k, ofNat v]
   | .raiseBody => Json.arr #[Json.str "raiseBody"]
+  | .refuse k => Json.arr #[Json.str "refuse", ofNat k]
 
 /-- replay a schedule; stops at the first scheduled caller that has no step -/
 def replay (idx : Nat → Nat) : St → List Nat → List Ev → St × List Ev × Option Nat
@@ -66,7 +68,10 @@ def handle (req : Json) : Except String Json := do
     let progs ← (← arr (← field req "progs")).mapM (fun p => do
       (← arr p).mapM (fun seg => do (← arr seg).mapM parseInstr))
     let sched ← natList (← field req "sched")
-    let (s, evs, stuck) := replay idx (init progs) sched []
+    let repaired := match (fieldD req "repaired" (Json.bool false)).getBool? with | .ok b => b | .error _ => false
+    let s0 := if repaired then initR progs else init progs
+    let (s, evs, stuck) := replay idx s0 sched []
+    let sN := runN idx s0 (fun t => sched.getD t 0) sched.length
     let keys := List.range idxl.length
     let enabled := (List.range s.cs.length).map (fun i =>
       match step idx s i with
@@ -80,6 +85,10 @@ def handle (req : Json) : Except String Json := do
       ("book", ofList (fun (c : Caller) => ofList (fun k => ofInt (c.book k)) keys) s.cs),
       ("terminal", ofList (fun (c : Caller) => Json.bool c.terminal) s.cs),
       ("next", Json.arr enabled.toArray),
+      ("waitEdges", ofList (fun (e : Nat × Nat) => Json.arr #[ofNat e.1, ofNat e.2]) (waitEdges idx s)),
+      ("deadlocked", Json.bool (s.deadlocked idx)),
+      ("runN_arr", ofList (fun k => ofInt (sN.arr (idx k))) keys),
+      ("runN_terminal", Json.bool sN.allTerminal),
       ("wellNested", ofList (fun p => Json.bool (WellNested idx p)) progs),
       ("hier", ofList (fun p => Json.bool (Hier idx p)) progs)])
   | "disk" =>
@@ -97,7 +106,8 @@ def handle (req : Json) : Except String Json := do
         | s => throw s!"bad write {s}"
       | _ => throw "bad write"
     let fs : Fs := fun k => if k = 0 then f0 else none
-    let (fs', out) := diskGetSet fs 0 w
+    let conc := match (fieldD req "conc" (Json.bool false)).getBool? with | .ok b => b | .error _ => false
+    let (fs', out) := if conc then concDiskGetSet fs 0 w else diskGetSet fs 0 w
     pure (obj [
       ("fs", ofOpt (ofList ofNat) (fs' 0)),
       ("out", match out with
